@@ -5,7 +5,9 @@ directory are projected to abstract events (AfSys: openw / write / rename / unli
 final, temporary or input names).  A fresh run of the same deterministic operation is then killed (strace fault
 injection: SIGKILL on entry of the n-th traced system call, i.e. just before it takes effect) before every one of
 these calls, and the surviving directory is re-opened and described by the real component (AfSysCrash).  The
-resulting trace  AfStart (AfSysCrash AfSys)* AfSysCrash AfEnd  is validated by Trace_AtomicFs.tla."""
+resulting trace  AfStart (AfSysCrash AfSysRetry AfSys)* AfSysCrash AfEnd  is validated by Trace_AtomicFs.tla.
+AfSysRetry describes a copy of the killed run's directory in which the next process has run an operation of the same
+kind (on other, smaller data) to completion: "after any prior history" includes the history that ends with a crash."""
 import base64
 import json
 import os
@@ -225,7 +227,7 @@ def explore(w, proto, seed, tag):
     mainpid = calls[0][0]
     evs = project(calls, Namer(proto, watch_of(rec), meta["names"]))
     stats = {"events": len(evs), "kills": 0, "unrealised": 0}
-    dirs = []
+    dirs, retry_ok = [], {}
     for j, e in enumerate(evs):
         name = "k%02d" % j
         d = fresh(name)
@@ -240,8 +242,18 @@ def explore(w, proto, seed, tag):
             continue
         stats["kills"] += 1
         dirs.append(name)
+        # the next process: a copy of what the killed run left (before anything re-opens and cleans it) in which the
+        # same kind of operation, on other and smaller data, runs to completion
+        shutil.copytree(os.path.join(base, name), os.path.join(base, name + "r"), symlinks=True)
+        rr = subprocess.run(run_args(os.path.join(base, name + "r", "dir")) + ["retry=1"], stdout=subprocess.PIPE,
+                            stderr=subprocess.PIPE, text=True, timeout=120)
+        try:
+            retry_ok[name] = bool(json.loads([l for l in rr.stdout.splitlines() if l.strip()][-1]).get("ok"))
+        except Exception:
+            retry_ok[name] = False
+        stats["retries"] = stats.get("retries", 0) + 1
     dirs.append("rec")
-    real = [d for d in dirs if d]
+    real = [d for d in dirs if d] + [d + "r" for d in dirs if d and d != "rec"]
     outp = os.path.join(base, "describe.ndjson")
     r = subprocess.run([vlib.XV, "atomicfs", "mode=sys_describe", "base=" + base, "dirs=" + ",".join(real), "out=" + outp],
                        stdout=subprocess.PIPE, stderr=subprocess.PIPE, text=True)
@@ -261,6 +273,10 @@ def explore(w, proto, seed, tag):
         if dirs[j]:
             v = dict(desc[dirs[j]])
             v["before"] = e["sys"]
+            lines.append(json.dumps(v))
+            v = dict(desc[dirs[j] + "r"])
+            v["before"] = e["sys"]
+            v["op_ok"] = retry_ok.get(dirs[j], False)
             lines.append(json.dumps(v))
         ev = dict(e["ev"])
         ev.update({"ev": "AfSys", "sys": e["sys"]})
